@@ -50,13 +50,14 @@ def plan(tier, seed):
     return out
 
 
-def build_ete(t):
+def build_ete(t, same_names=False):
+    """same_names: every node carries the same (empty) name, as in a Newick string without labels"""
     nodes = {}
     for v in t.order_pre():
         if t.parent[v] is None:
-            nodes[v] = Tree(name=f"n{v}")
+            nodes[v] = Tree(name="" if same_names else f"n{v}")
         else:
-            nodes[v] = nodes[t.parent[v]].add_child(name=f"n{v}")
+            nodes[v] = nodes[t.parent[v]].add_child(name="" if same_names else f"n{v}")
     return nodes
 
 
@@ -65,7 +66,16 @@ def check_tree(shape):
     t = T(shape)
     nodes = build_ete(t)
     lca = LowestCommonAncestor(nodes[t.root])
-    return verify(t, nodes, lca)
+    bad, n, nt = verify(t, nodes, lca)
+    if bad or t.n > 7:
+        return bad, n, nt
+    # the same tree with nameless nodes (queries are about node objects, not names)
+    nodes = build_ete(t, same_names=True)
+    lca = LowestCommonAncestor(nodes[t.root])
+    bad2, n2, nt2 = verify(t, nodes, lca, triples=False)
+    if bad2:
+        bad2 = ("with nameless nodes: " + bad2[0].replace("= ,", "= <nameless>,"), bad2[1])
+    return bad2, n + n2, nt + nt2
 
 
 def verify(t, nodes, lca, triples=True):
